@@ -38,6 +38,8 @@ def build_history(hid, cases):
             spec["seclen"], spec["secmb"] = 512, True
         if c["mut"] == "len514mb":
             spec["seclen"], spec["secmb"] = 514, True
+        if c["mut"] in ("p2pk512", "p2pk513"):
+            spec["seclen"], spec["lock"] = int(c["mut"][4:]), "K1"
         fund[c["ks"]].append(("base", i, spec))
     for ks in ("k0", "k1", "k2"):
         for a in (1, 2, 64, 1024):
@@ -73,7 +75,7 @@ def build_history(hid, cases):
         mut = c["mut"]
         claimed_ks, claimed_amt = c["ks"], c["amt"]
         var = mut
-        if mut in ("len512", "len513", "len512mb", "len514mb"):
+        if mut in ("len512", "len513", "len512mb", "len514mb", "p2pk512", "p2pk513"):
             var = ""
         if mut == "c:other":
             var = "c:" + spare[(c["ks"], 2 if c["amt"] != 2 else 64)]
